@@ -10,6 +10,9 @@ checks = {
  "C19": dict(harness="hev", design="§6 C19",
    text="Seeded exploration of the real KafkaWriter/FifoBuffer under the simrt scheduler with a simulated broker (latency, stalls) and Close at drawn instants; oracles: exactly-once, per-producer order, flush on Close, partition key, bounded non-empty batches, producers never wait, Close bounded. Sampling of schedules and broker behaviours, not a proof.",
    note="Trusts the instrumentation (simrewrite) to preserve behaviour and synctest's fake clock; broker is a stub that never fails a write; publishing after Close is out of scope."),
+ "C12": dict(harness="hcmdq", design="§6 C12",
+   text="Seeded exploration of the real CommandQueue+Servent with concurrent clients and per-(command,target) executor behaviours (reply, error, send failure, silence, duplicate, late, foreign id, id of another command, wrong sender) delivered in schedule-decided order; oracles: exactly one completion per command, within the command's own timeout, per-target attribution by unique reply nonce, target set preserved, queue alive afterwards.",
+   note="Executors and the send function are stubs (the code's own SendCommandFunc seam); delays within 10% of the timeout are not generated; one queue per servent as in the core."),
 }
 
 na = {
